@@ -308,6 +308,80 @@ func runC19(c *Ctx) {
 						if carried(iff.Cond, 0) {
 							bad = append(bad, "whether a file is handled depends on a value carried over from the files before it (test at "+p.Pos(firstPos(x))+"): after some file the remaining ones are no longer processed")
 						}
+						// every entry that is not a directory is handed on: a test of the entry's file kind or metadata
+						// other than IsDir() (Type().IsRegular(), Mode(), Info(), Stat/Lstat of the path) that decides
+						// whether the handler is called skips symbolic links to generated files, which the per-file
+						// handler opens without any trouble
+						reachesFrom := func(s *ssa.BasicBlock) bool {
+							seenB := map[*ssa.BasicBlock]bool{}
+							var walk func(q *ssa.BasicBlock) bool
+							walk = func(q *ssa.BasicBlock) bool {
+								if q == b {
+									return true
+								}
+								if seenB[q] || q == l.Header {
+									return false
+								}
+								seenB[q] = true
+								for _, n := range q.Succs {
+									if walk(n) {
+										return true
+									}
+								}
+								return false
+							}
+							return walk(s)
+						}
+						if len(x.Succs) == 2 && reachesFrom(x.Succs[0]) != reachesFrom(x.Succs[1]) {
+							seenV := map[ssa.Value]bool{}
+							var kindTest func(v ssa.Value, d int) string
+							kindTest = func(v ssa.Value, d int) string {
+								if v == nil || seenV[v] || d > 6 {
+									return ""
+								}
+								seenV[v] = true
+								switch y := v.(type) {
+								case *ssa.Call:
+									nm := calleeName(&y.Call)
+									if y.Call.IsInvoke() {
+										nm = y.Call.Method.Name()
+									}
+									switch {
+									case strings.HasSuffix(nm, "IsDir"):
+										return ""
+									case nm == "Type" || nm == "Mode" || nm == "Info" || strings.HasSuffix(nm, "IsRegular") || strings.HasSuffix(nm, ".Perm") || nm == "os.Stat" || nm == "os.Lstat" || strings.HasSuffix(nm, "(io/fs.FileMode).IsRegular") || strings.HasSuffix(nm, "(io/fs.FileMode).Type"):
+										return nm
+									}
+									for _, a := range y.Call.Args {
+										if r := kindTest(a, d+1); r != "" {
+											return r
+										}
+									}
+									if y.Call.IsInvoke() {
+										return kindTest(y.Call.Value, d+1)
+									}
+								case *ssa.BinOp:
+									if r := kindTest(y.X, d+1); r != "" {
+										return r
+									}
+									return kindTest(y.Y, d+1)
+								case *ssa.UnOp:
+									return kindTest(y.X, d+1)
+								case *ssa.Extract:
+									return kindTest(y.Tuple, d+1)
+								case *ssa.Phi:
+									for _, e := range y.Edges {
+										if r := kindTest(e, d+1); r != "" {
+											return r
+										}
+									}
+								}
+								return ""
+							}
+							if nm := kindTest(iff.Cond, 0); nm != "" {
+								bad = append(bad, "whether an entry is handed to the per-file handler is decided by "+nm+"() at "+p.Pos(firstPos(x))+", not by IsDir() alone: a symbolic link to a generated file (or any entry that is not a regular file, yet opens fine) is silently skipped")
+							}
+						}
 					}
 				}
 			}
